@@ -697,6 +697,21 @@ func registerExternals(w *World) {
 		return func(fr *frame, args []value) (value, bool) {
 			in := fr.in
 			ss, isSym := args[0].(*SymStr)
+			if isSym && len(ss.E) > 1 {
+				// a numeral atom followed / preceded by a concrete non-digit byte ("<n>u"):
+				// not a number in any base-10 reading
+				for _, el := range ss.E {
+					if b, isByte := el.(byte); isByte && (b < '0' || b > '9') && b != '-' && b != '+' && b != '_' {
+						if signedResult {
+							if len(args) < 3 {
+								return tuple{0, fr.in.w.mkError("strconv.Atoi: invalid syntax")}, true
+							}
+							return tuple{int64(0), fr.in.w.mkError("strconv.ParseInt: invalid syntax")}, true
+						}
+						return tuple{uint64(0), fr.in.w.mkError("strconv.ParseUint: invalid syntax")}, true
+					}
+				}
+			}
 			if !isSym || len(ss.E) != 1 {
 				panic(unsupported{"strconv.Parse* on a symbolic string that is not a single numeral atom"})
 			}
